@@ -340,7 +340,80 @@ pub fn run_batch(b: &Batch, tier: Tier, ctx: Option<&Ctx>) -> CaseResult {
     Ok(((list.len() as u64) << 20) | reached)
 }
 
+// ---------- replays of genuinely signed handshake datagrams: crash freedom for SEQUENCES ----------
+
+/// An outsider without any key can still record handshake datagrams that trusted nodes exchanged (the victim's own
+/// exchange, or one between two other nodes with the same trusted keys) and send them again, as often as it likes.
+/// Such a datagram is not "rejected" in general (what it may and may not do to connections is C09's subject), so the
+/// unchanged-state oracle does not apply and sequences are not covered by closure: all sequences up to the bound are run,
+/// each followed by three housekeeping rounds, and only crash freedom is demanded.
+#[derive(Serialize, Deserialize, Clone, Debug)]
+pub struct ReplaySeq {
+    pub state: String,
+    pub source: String,
+    /// indices into the message menu: 0..3 = ping/pong/peng of a foreign exchange, 3.. = handshake datagrams of the victim's own
+    pub seq: Vec<usize>,
+}
+
+pub fn run_replays(c: &ReplaySeq) -> CaseResult {
+    let mut net = build_state(&c.state);
+    let mut menu: Vec<Vec<u8>> = genuine(c.state == "established_plain").into_iter().filter(|g| ["ping", "pong", "peng"].contains(&g.0.as_str())).map(|g| g.1).collect();
+    if let Some(cap) = net.capture.as_ref() {
+        menu.extend(cap.iter().filter(|w| w.data.first() == Some(&0xff)).take(3).map(|w| w.data.clone()));
+    }
+    let from = source_addr(&net, &c.source);
+    let mut class = 0u64;
+    for (step, k) in c.seq.iter().enumerate() {
+        let Some(data) = menu.get(*k) else { return Ok(0) };
+        let r = util::catch(|| net.inject(0, from, data.clone()));
+        if let Err(p) = r {
+            return Err(Fail::from_panic(&p).with("source", c.source.clone()).with("state", c.state.clone()).with("family", "signed_replays").with("step", step as u64));
+        }
+        class = class * 7 + net.queue.len().min(6) as u64;
+        net.queue.clear();
+        net.pop_frames(0);
+    }
+    for _ in 0..3 {
+        let r = util::catch(|| {
+            net.tick();
+            net.queue.clear();
+        });
+        if let Err(p) = r {
+            return Err(Fail::from_panic(&p).with("source", c.source.clone()).with("state", c.state.clone()).with("family", "signed_replays").with("step", "housekeeping"));
+        }
+    }
+    Ok(1 + class)
+}
+
+pub fn replay_seqs(tier: Tier) -> Vec<ReplaySeq> {
+    let mut v = vec![];
+    let maxlen = tier.pick(2, 3);
+    for state in STATES {
+        for source in ["unknown", "peer"] {
+            let mut seqs: Vec<Vec<usize>> = vec![vec![]];
+            let mut frontier: Vec<Vec<usize>> = vec![vec![]];
+            for _ in 0..maxlen {
+                let mut next = vec![];
+                for f in &frontier {
+                    for k in 0..6 {
+                        let mut g = f.clone();
+                        g.push(k);
+                        next.push(g);
+                    }
+                }
+                seqs.extend(next.iter().cloned());
+                frontier = next;
+            }
+            for seq in seqs.into_iter().filter(|q| !q.is_empty()) {
+                v.push(ReplaySeq { state: state.into(), source: source.into(), seq });
+            }
+        }
+    }
+    v
+}
+
 pub fn run(ctx: &Ctx) {
+    sweep_list(ctx, "signed_replays", &replay_seqs(ctx.tier), SweepOpts { chunk: 8, deadline_secs: Some(60), ..Default::default() }, run_replays);
     let mut batches = vec![];
     for state in STATES {
         for source in ["unknown", "peer"] {
@@ -359,7 +432,7 @@ pub fn run(ctx: &Ctx) {
         }
     }
     let tier = ctx.tier;
-    let st = sweep_list(ctx, "batches", &batches, SweepOpts { chunk: 1, ..Default::default() }, |b| run_batch(b, tier, Some(ctx)));
+    let st = sweep_list(ctx, "batches", &batches, SweepOpts { chunk: 1, deadline_secs: Some(240), ..Default::default() }, |b| run_batch(b, tier, Some(ctx)));
     // account for the individual datagrams (the batch is only the execution vehicle)
     {
         let total: u64 = batches.iter().map(|b| datagrams(&b.family, b.chunk, &b.state, tier).len() as u64).sum();
@@ -390,6 +463,7 @@ pub fn run(ctx: &Ctx) {
 pub fn replay(family: &str, case: &Value) -> Option<CaseResult> {
     match family {
         "datagram" => replay_with::<Case>(case, run_case),
+        "signed_replays" => replay_with::<ReplaySeq>(case, run_replays),
         "batches" => replay_with::<Batch>(case, |b| run_batch(b, Tier::Thorough, None)),
         _ => None,
     }
